@@ -1,5 +1,6 @@
 import Driver.Util
 import Driver.Ops.Integer
+import Driver.Ops.L2
 import Driver.Ops.Real
 import Driver.Ops.OidTime
 import Driver.Ops.Fixer
@@ -18,13 +19,31 @@ def step (line : String) : String :=
   | some out => out
   | none => bad
 
-partial def loop (h : IO.FS.Stream) (out : IO.FS.Stream) : IO Unit := do
+/-- L2 lines carry state (the current module): `l2mod <module-sexp>` selects it,
+    `@Type <op> ...` runs an L2 op on one of its types. -/
+def stepL2 (st : Option Asn1c.L2.ModCtx) (toks : List String) : Option (Option Asn1c.L2.ModCtx × String) :=
+  match toks with
+  | "l2mod" :: ws =>
+    match (Asn1c.Sexp.parseWords ws).bind Asn1c.L2.parseModule with
+    | some m => some (some m, "ok")
+    | none => some (st, "bad-module")
+  | t :: rest =>
+    if t.startsWith "@" then
+      match st with
+      | some m => some (st, Driver.Ops.L2.run m (t.drop 1).toString rest)
+      | none => some (st, "no-module")
+    else none
+  | [] => none
+
+partial def loop (h : IO.FS.Stream) (out : IO.FS.Stream) (st : Option Asn1c.L2.ModCtx) : IO Unit := do
   let line ← h.getLine
   if line.isEmpty then return ()
-  out.putStrLn (step line)
-  loop h out
+  let toks := (line.trimAscii.toString.splitOn " ").filter (· ≠ "")
+  match stepL2 st toks with
+  | some (st', o) => out.putStrLn o; loop h out st'
+  | none => out.putStrLn (step line); loop h out st
 
 def main : IO Unit := do
   let stdin ← IO.getStdin
   let stdout ← IO.getStdout
-  loop stdin stdout
+  loop stdin stdout none
